@@ -24,6 +24,9 @@ def edgeOp (args : List String) : String :=
     | some l => let r := Edge.enqueue l
                 "smtp=" ++ toString (Edge.smtpSees r) ++ " wsgi=" ++ toString (Edge.wsgiSees r)
     | none => "bad-op"
+  | ["proxy", "crash"] =>
+    -- relay._attempt raised something that is not a RelayError: ProxyQueue.enqueue lets it propagate, the edge answers 421 / 500
+    "smtp=" ++ toString (Edge.smtpSees none) ++ " wsgi=" ++ toString (Edge.wsgiSees none)
   | ["proxy", o] =>
     match parseRelayOut o with
     | some ro => let r := some (Edge.proxyEnqueue ro)
